@@ -585,7 +585,7 @@ class Interp(Engine):
             return
         txt = ast.unparse(s)
         for want, fn in hooks:
-            if want == txt:
+            if (want(txt) if callable(want) else want == txt):
                 self.cur_frame = fr
                 fired = getattr(self, "_hooks_fired", None)
                 if fired is not None:
